@@ -155,12 +155,36 @@ fn gen_workload(rng: &mut Rng, thorough: bool) -> Value {
             // source: -1 = the shared base, otherwise an earlier value of this thread
             let from_recent = rng.chance(1, 2);
             let keep = rng.chance(1, 2);
-            ops.push(json!({"kind": kind, "op": [name, rng.below(8), 20 + i as i64 + rng.below(50) as i64], "recent": from_recent, "keep": keep, "pick": rng.below(1000)}));
+            ops.push(json!({"kind": kind, "op": [name, rng.below(8), 20 + i as i64 + rng.below(50) as i64], "recent": from_recent, "keep": keep, "pick": rng.below(1000), "wrap": if rng.chance(1, 2) { rng.range(1, 13) } else { 0 }}));
         }
         threads.push(json!({"ops": ops}));
     }
     let share = *rng.pick(&["global", "global", "closure", "box"]);
     json!({"jit": jit, "gc": [*rng.pick(&[0u64, 0, 1]), *rng.pick(&[4u64, 16])], "kinds": kinds, "threads": threads, "share": share})
+}
+
+/// The update sits in some syntactic context that decides nothing (the branch
+/// with the update is always the one taken) but gives the last-use analysis
+/// something to get wrong: the source variable is mentioned in the other
+/// branch, or is read again later in the same function.
+fn wrap(kind: u64, update: &str, source: &str) -> String {
+    // rt-one / rt-zero / rt-true are globals whose values the compiler cannot know
+    match kind {
+        1 => format!("(let ((tt rt-one)) (if (> tt 0) {} {}))", update, source),
+        2 => format!("(let ((tt rt-zero)) (if (> tt 0) {} {}))", source, update),
+        3 => format!("(if (> rt-one 0) {} {})", update, source),
+        4 => format!("(cond ((> rt-zero 0) {}) (else {}))", source, update),
+        5 => format!("((lambda (tt) (if tt {} {})) rt-true)", update, source),
+        6 => format!("(let ((tt rt-one) (uu 2)) (if (> uu tt) {} {}))", update, source),
+        7 => format!("(begin rt-zero {})", update),
+        8 => format!("(let lp ((i rt-zero)) (if (< i 1) (lp (+ i 1)) {}))", update),
+        9 => format!("(and rt-true {})", update),
+        10 => format!("(car (list {}))", update),
+        11 => format!("(let ((tt rt-one)) (let ((uu 2)) (if (> uu tt) {} {})))", update, source),
+        12 => format!("(let ((tt rt-one)) (when (> tt 0) {}))", update),
+        13 => format!("(or (> rt-zero 0) {})", update),
+        _ => update.to_string(),
+    }
 }
 
 struct Built {
@@ -171,7 +195,7 @@ struct Built {
 fn build(w: &Value) -> Built {
     let kinds: Vec<String> = w["kinds"].as_array().unwrap().iter().map(|k| k.as_str().unwrap().to_string()).collect();
     let share = w["share"].as_str().unwrap_or("global");
-    let mut src = String::new();
+    let mut src = String::from("(define rt-one (unbox (box 1)))\n(define rt-zero (unbox (box 0)))\n(define rt-true (unbox (box #t)))\n");
     let mut bases: BTreeMap<String, V> = BTreeMap::new();
     for k in &kinds {
         let (text, v) = base_of(k);
@@ -220,6 +244,7 @@ fn build(w: &Value) -> Built {
             let (svar, smodel) = source.unwrap_or_else(|| (base_ref(&kind), bases[&kind].clone()));
             let var = format!("v{}x{}", t, i);
             let (expr, model) = apply(&kind, &op["op"], &svar, &smodel);
+            let expr = wrap(op["wrap"].as_u64().unwrap_or(0), &expr, &svar);
             bindings.push_str(&format!("({} {})", var, expr));
             if op["keep"].as_bool().unwrap_or(false) {
                 kept.push((kind.clone(), var.clone(), model.clone()));
@@ -380,7 +405,7 @@ impl Scenario for C03 {
     }
 
     fn rule(&self) -> String {
-        "each evaluation = one forked run: 1-3 script threads plus main share base values of 1-3 kinds (hash map, hash set, immutable vector, list, string) through globals, closure captures or boxes; each thread applies a seeded chain of 2-14 functional updates (insert / remove / union / push / push-front / set / rest / cons / append / list-tail / reverse / string-append) whose source is the shared base, the thread's most recent value (used once: a last use that can be moved and updated in place) or an older kept value; kept values and the bases are queried by every thread and by main at the end; instruction-level interleaving under the token scheduler, forced collections at rate {0,1/16,1/4}, JIT on/off; oracle: snapshot model of every kept value; non-trivial = every run".into()
+        "each evaluation = one forked run: 1-3 script threads plus main share base values of 1-3 kinds (hash map, hash set, immutable vector, list, string) through globals, closure captures or boxes; each thread applies a seeded chain of 2-14 functional updates (insert / remove / union / push / push-front / set / rest / cons / append / list-tail / reverse / string-append), half of them inside one of 13 syntactic contexts (let-bodied if with the source in the other arm, cond, when, and/or, named let, immediately applied lambda, ...) whose source is the shared base, the thread's most recent value (used once: a last use that can be moved and updated in place) or an older kept value; kept values and the bases are queried by every thread and by main at the end; instruction-level interleaving under the token scheduler, forced collections at rate {0,1/16,1/4}, JIT on/off; oracle: snapshot model of every kept value; non-trivial = every run".into()
     }
     fn assumptions(&self) -> Vec<String> {
         vec![
